@@ -368,7 +368,7 @@ def leaf_heter(out):
         tdefs[m.group(1)] = d
     if len(tdefs) != 2:
         raise Untranslatable('doProcessIf: expected two overloads, found %d' % len(tdefs))
-    main = [g for g in tdefs if any(x.get('kind') == 'ForStmt' for x in walk(tdefs[g]))]
+    main = [g for g in tdefs if any(x.get('kind') in ('ForStmt', 'WhileStmt', 'DoStmt', 'CXXForRangeStmt') for x in walk(tdefs[g]))]
     stop = [g for g in tdefs if g not in main]
     if len(main) != 1 or len(stop) != 1:
         raise Untranslatable('doProcessIf: cannot tell the working from the terminal overload')
